@@ -53,7 +53,7 @@ struct CountdownObserver : Observer<Args...> {
 };
 
 struct Cover {
-    uint64_t countdownObservers = 0, longLifeRuns = 0, longLifeCycles = 0, burstObservers = 0;
+    uint64_t thrown = 0, countdownObservers = 0, longLifeRuns = 0, longLifeCycles = 0, burstObservers = 0;
     uint64_t histories = 0, ops = 0, notifies = 0, nestedNotifies = 0, calls = 0, inRoundActions = 0, staleRejected = 0;
     uint64_t selfUnsub = 0, unsubOther = 0, lazyRemovals = 0, handleMoves = 0, nontrivialCases = 0, maxDepth = 0, tokensDestroyed = 0;
     std::map<std::string, uint64_t> opCount, sigCount, actionCount;
@@ -97,7 +97,9 @@ struct Runner {
         int64_t expect = 0;   // expected digest (by-value / const-ref signatures)
         int callsInRound = 0;
         int refVar = 0;       // the int& argument of this round
+        bool aborted = false; // a callback threw: nobody after it is called in this round
     };
+    struct Boom {};
 
     std::unique_ptr<Subj> subj;
     std::unique_ptr<Subj> other;       // a second Subject: source of foreign handles with equal numeric ids
@@ -256,19 +258,26 @@ struct Runner {
         log(nested ? "(notify" : "NOTIFY");
         rounds.push_back(&r);
         C.maxDepth = std::max<uint64_t>(C.maxDepth, rounds.size());
-        if constexpr (kRef) {
-            subj->notify(r.refVar);
-        } else if constexpr (kN == 0) {
-            r.expect = digest();
-            subj->notify();
-        } else {
-            std::tuple<std::decay_t<Args>...> vals{makeVal<std::decay_t<Args>>(r.v)...};
-            r.expect = std::apply([](auto &...a) { return digest(a...); }, vals);
-            std::apply([&](auto &...a) { subj->notify(a...); }, vals);
-            int64_t after = std::apply([](auto &...a) { return digest(a...); }, vals);
-            if (after != r.expect && !gCaseFailed) fail(gProp, "wrong-argument", site, "notify() modified the caller's argument objects");
+        bool caught = false;
+        try {
+            if constexpr (kRef) {
+                subj->notify(r.refVar);
+            } else if constexpr (kN == 0) {
+                r.expect = digest();
+                subj->notify();
+            } else {
+                std::tuple<std::decay_t<Args>...> vals{makeVal<std::decay_t<Args>>(r.v)...};
+                r.expect = std::apply([](auto &...a) { return digest(a...); }, vals);
+                std::apply([&](auto &...a) { subj->notify(a...); }, vals);
+                int64_t after = std::apply([](auto &...a) { return digest(a...); }, vals);
+                if (after != r.expect && !gCaseFailed) fail(gProp, "wrong-argument", site, "notify() modified the caller's argument objects");
+            }
+        } catch (const Boom &) {
+            caught = true;
         }
-        if (!gCaseFailed) {
+        if (!gCaseFailed && caught != r.aborted)
+            fail(gProp, "exception-lost", site, caught ? "notify() threw although no callback of this round did" : "a callback threw but notify() returned normally");
+        if (!gCaseFailed && !r.aborted) {
             int left = advance(r);
             if (left >= 0)
                 fail(gProp, "missing-call", site, "round returned although observer " + std::to_string(left) + " (subscribed, valid, unmuted at the time of the call) was never invoked");
@@ -318,6 +327,15 @@ struct Runner {
             else if (r < 82) {
                 int t = target();
                 if (t >= 0) { ++C.actionCount[t == self ? "invalidate-self" : "invalidate-other"]; log("[" + std::to_string(self) + ":inval" + std::to_string(t) + "]"); e[t]->handle.getObserver()->invalidate(); e[t]->valid = false; }
+            }
+            else if (r < 86) {
+                // the callback fails: the exception travels through notify() to whoever called it (here: doNotify of this
+                // round), the round ends there, and the Subject must be as usable as before
+                ++C.actionCount["throw"];
+                ++C.thrown;
+                log("[" + std::to_string(self) + ":throw]");
+                rounds.back()->aborted = true;
+                throw Boom{};
             }
             else if (rounds.size() < 3) { ++C.actionCount["nested-notify"]; log("[" + std::to_string(self) + ":"); doNotify(); log("]"); }
         }
@@ -565,7 +583,7 @@ int main(int argc, char **argv) {
                    .kv("nestedNotifies", C.nestedNotifies).kv("calls", C.calls).kv("inRoundActions", C.inRoundActions)
                    .kv("staleRejected", C.staleRejected).kv("selfUnsub", C.selfUnsub).kv("unsubOther", C.unsubOther)
                    .kv("lazyRemovals", C.lazyRemovals).kv("handleMoves", C.handleMoves).kv("nontrivialCases", C.nontrivialCases)
-                   .kv("maxDepth", C.maxDepth).kv("tokensDestroyed", C.tokensDestroyed).kv("countdownObservers", C.countdownObservers).kv("longLifeRuns", C.longLifeRuns).kv("longLifeCycles", C.longLifeCycles).kv("burstObservers", C.burstObservers)
+                   .kv("maxDepth", C.maxDepth).kv("tokensDestroyed", C.tokensDestroyed).kv("callbacksThatThrew", C.thrown).kv("countdownObservers", C.countdownObservers).kv("longLifeRuns", C.longLifeRuns).kv("longLifeCycles", C.longLifeCycles).kv("burstObservers", C.burstObservers)
                    .raw("opCount", rt::jsonCounts(C.opCount)).raw("signatures", rt::jsonCounts(C.sigCount))
                    .raw("inRoundActionKinds", rt::jsonCounts(C.actionCount)).raw("samples", rt::jsonArray(C.samples, false)));
     return 0;
